@@ -4,6 +4,21 @@
 //! connection), taken by a layer, answered with `Endpoint::create_response` through the matching server
 //! transaction, and what leaves on the wire is read with the independent `WireMsg` reader and compared
 //! with the *generated* request description (never with a second parse by ezk).
+//!
+//! Two further dimensions (round 3):
+//!
+//! * configuration — the endpoint owns 1..4 datagram transports (names UDP / DTLS, both address families,
+//!   several local addresses and ports, any registration order) and the request arrives on any of them:
+//!   the response has to leave through the socket the request arrived on (RFC 3581 sec. 4; not asserted
+//!   when the destination is of the other address family than that socket and other sockets exist);
+//! * history — the response does not stop existing after its first transmission: the peer retransmits the
+//!   request (from the same source, another port, another address; before the first response of the TU
+//!   and after the last), virtual time passes (timer G of the INVITE server transaction), the TU
+//!   retransmits its 2xx (`Accepted::retransmit`). Every copy that leaves is held against the same
+//!   sec. 18.2.2 table: maddr wins whatever the packet sources were; without maddr the source of any
+//!   injected (re)transmission is accepted. A copy whose bytes differ from the first transmission is
+//!   checked as a response of its own. Whether and how often copies are sent is C06's subject, not
+//!   asserted here.
 
 use crate::engine::*;
 use crate::props::c06::ChannelLayer;
@@ -14,7 +29,7 @@ use bytesstr::BytesStr;
 use proptest::prelude::*;
 use serde::{Deserialize, Serialize};
 use sip_core::transport::streaming::StreamingListenerBuilder;
-use sip_core::transport::TargetTransportInfo;
+use sip_core::transport::{TargetTransportInfo, TpHandle};
 use sip_core::{IncomingRequest, Request};
 use sip_types::uri::sip::SipUri;
 use sip_types::{Code, Method, Name};
@@ -297,6 +312,61 @@ pub struct Case {
     /// shapes the generator drew and then replaced because they are recorded as open findings
     #[serde(default)]
     pub excluded: Vec<String>,
+    /// datagram transports registered with the endpoint, in registration order (`Tp::Datagram` only).
+    /// Empty = the single "UDP" transport on port 5060 of all earlier replay files.
+    #[serde(default)]
+    pub locals: Vec<LocalTp>,
+    /// index into `locals` of the transport the request (and its retransmissions) arrives on
+    #[serde(default)]
+    pub arrive_on: u8,
+    /// retransmissions of the request that arrive before the TU sent its first response (`Ev::Retx` only)
+    #[serde(default)]
+    pub early: Vec<Ev>,
+    /// what happens after the last response was handed to the transaction
+    #[serde(default)]
+    pub history: Vec<Ev>,
+}
+
+/// one datagram transport the endpoint owns
+#[derive(Serialize, Deserialize, Clone, Debug, Hash, PartialEq, Eq)]
+pub struct LocalTp {
+    /// false: name "UDP"; true: name "DTLS" (secure datagram transport)
+    pub dtls: bool,
+    /// bound to an address of the family the packet source does NOT have
+    /// (ignored for the transport the request arrives on: a packet arrives on a socket of its own family)
+    pub other_family: bool,
+    /// selects the bound ip: 10.0.0.<1+n> / fd00::<1+n>
+    pub ip_sel: u8,
+    pub port: u16,
+}
+
+/// where a retransmission of the request comes from
+#[derive(Serialize, Deserialize, Clone, Debug, Hash, PartialEq, Eq)]
+pub enum RSrc {
+    /// the packet source of the first transmission
+    Same,
+    /// same ip, this port (NAT rebinding)
+    OtherPort(u16),
+    /// another ip of the family of the first packet source
+    OtherIp { v4: [u8; 4], v6: [u16; 8], port: u16 },
+}
+
+#[derive(Serialize, Deserialize, Clone, Debug, Hash, PartialEq, Eq)]
+pub enum Ev {
+    /// the peer retransmits the request (same bytes, same local transport)
+    Retx(RSrc),
+    /// virtual time passes (timer driven retransmissions of the response)
+    Advance(u16),
+    /// the TU retransmits its 2xx to the INVITE (`Accepted::retransmit`); nothing for other cases
+    TuRetransmit,
+}
+
+/// a resolved `LocalTp`
+#[derive(Clone, Debug)]
+pub struct LocalAddr {
+    pub name: &'static str,
+    pub secure: bool,
+    pub bound: SocketAddr,
 }
 
 impl Case {
@@ -306,6 +376,61 @@ impl Case {
             _ => self.src_alt.ip().unwrap_or(IpAddr::V4(Ipv4Addr::new(192, 0, 2, 200))),
         };
         SocketAddr::new(ip, self.src_port.max(1))
+    }
+    /// the datagram transports of the endpoint in registration order and the index of the one the
+    /// request arrives on; bound addresses are pairwise distinct
+    pub fn resolved_locals(&self) -> (Vec<LocalAddr>, usize) {
+        let v4 = self.source().is_ipv4();
+        if self.locals.is_empty() {
+            let bound: SocketAddr = if v4 { "10.0.0.1:5060" } else { "[fd00::1]:5060" }.parse().unwrap();
+            return (vec![LocalAddr { name: "UDP", secure: false, bound }], 0);
+        }
+        let arrive = (self.arrive_on as usize).min(self.locals.len() - 1);
+        let mut out: Vec<LocalAddr> = vec![];
+        for (i, l) in self.locals.iter().enumerate() {
+            let fam4 = if i == arrive { v4 } else { v4 != l.other_family };
+            let n = 1 + (l.ip_sel % 3) as u16;
+            let ip: IpAddr = if fam4 {
+                IpAddr::V4(Ipv4Addr::new(10, 0, 0, n as u8))
+            } else {
+                IpAddr::V6(Ipv6Addr::new(0xfd00, 0, 0, 0, 0, 0, 0, n))
+            };
+            let mut port = l.port.max(1);
+            while out.iter().any(|o| o.bound == SocketAddr::new(ip, port)) {
+                port = if port == u16::MAX { 1024 } else { port + 1 };
+            }
+            out.push(LocalAddr {
+                name: if l.dtls { "DTLS" } else { "UDP" },
+                secure: l.dtls,
+                bound: SocketAddr::new(ip, port),
+            });
+        }
+        (out, arrive)
+    }
+    /// packet source of a retransmission
+    pub fn retx_source(&self, s: &RSrc) -> SocketAddr {
+        let src = self.source();
+        match s {
+            RSrc::Same => src,
+            RSrc::OtherPort(p) => SocketAddr::new(src.ip(), (*p).max(1)),
+            RSrc::OtherIp { v4, v6, port } => {
+                let ip = if src.is_ipv4() { H::V4(*v4).ip().unwrap() } else { H::V6(*v6).ip().unwrap() };
+                SocketAddr::new(ip, (*port).max(1))
+            }
+        }
+    }
+    /// every packet source a (re)transmission of the request came from
+    pub fn all_sources(&self) -> Vec<SocketAddr> {
+        let mut v = vec![self.source()];
+        for e in self.early.iter().chain(self.history.iter()) {
+            if let Ev::Retx(s) = e {
+                let a = self.retx_source(s);
+                if !v.contains(&a) {
+                    v.push(a);
+                }
+            }
+        }
+        v
     }
     pub fn request_bytes(&self) -> Vec<u8> {
         let r = &self.req;
@@ -630,6 +755,67 @@ fn s_req() -> BoxedStrategy<Req> {
         .boxed()
 }
 
+/// ports of the endpoint's datagram transports (drawn without repetition)
+const LOCAL_PORTS: &[u16] = &[5060, 5080, 5061, 5062, 6060, 15060, 50600];
+
+/// 0 = the legacy single "UDP" transport; else 1..=4 transports with distinct ports, the request arriving on any of them
+fn s_locals() -> BoxedStrategy<(Vec<LocalTp>, u8)> {
+    let one = (prop_oneof![4 => Just(false), 1 => Just(true)], prop_oneof![4 => Just(false), 1 => Just(true)], 0u8..3);
+    prop_oneof![
+        4 => Just((vec![], 0u8)),
+        6 => (
+            proptest::collection::vec(one, 1..=4),
+            Just(LOCAL_PORTS.to_vec()).prop_shuffle(),
+            any::<u16>(),
+            // most endpoints bind all their sockets to one address
+            prop_oneof![2 => Just(true), 1 => Just(false)],
+        )
+            .prop_map(|(v, ports, sel, one_ip)| {
+                let arrive = pick_idx(sel, v.len()) as u8;
+                let locals = v
+                    .into_iter()
+                    .enumerate()
+                    .map(|(i, (dtls, other_family, ip_sel))| LocalTp {
+                        dtls,
+                        other_family,
+                        ip_sel: if one_ip { 0 } else { ip_sel },
+                        port: ports[i],
+                    })
+                    .collect();
+                (locals, arrive)
+            }),
+    ]
+    .boxed()
+}
+
+fn s_rsrc() -> BoxedStrategy<RSrc> {
+    prop_oneof![
+        4 => Just(RSrc::Same),
+        2 => (1u16..=65535).prop_map(RSrc::OtherPort),
+        1 => (s_ip4(), s_ip6(), 1u16..=65535).prop_map(|(v4, v6, port)| RSrc::OtherIp { v4, v6, port }),
+    ]
+    .boxed()
+}
+
+/// (early, history); the sum of all `Advance` stays far below the 32 s life time of a server transaction
+fn s_events() -> BoxedStrategy<(Vec<Ev>, Vec<Ev>)> {
+    let ev = prop_oneof![
+        5 => s_rsrc().prop_map(Ev::Retx),
+        // around the instants of timer G (500, 1500, 3500 ms after the final response) without sitting on them
+        3 => prop_oneof![1u16..=499, 501u16..=1499, 1501u16..=2600].prop_map(Ev::Advance),
+        1 => Just(Ev::TuRetransmit),
+    ];
+    let early = prop_oneof![
+        6 => Just(vec![]),
+        1 => proptest::collection::vec(s_rsrc().prop_map(Ev::Retx), 1..=2),
+    ];
+    let history = prop_oneof![
+        4 => Just(vec![]),
+        6 => proptest::collection::vec(ev, 1..=4),
+    ];
+    (early, history).boxed()
+}
+
 pub fn strategy() -> BoxedStrategy<Case> {
     (
         s_req(),
@@ -645,16 +831,28 @@ pub fn strategy() -> BoxedStrategy<Case> {
         ],
         s_responses(),
         any::<u8>(),
+        s_locals(),
+        s_events(),
     )
-        .prop_map(|(req, src_same, src_alt, src_port, tp, responses, rng)| Case {
-            req,
-            src_same,
-            src_alt,
-            src_port,
-            tp,
-            responses,
-            rng,
-            excluded: vec![],
+        .prop_map(|(req, src_same, src_alt, src_port, tp, responses, rng, (locals, arrive_on), (early, history))| {
+            let datagram = matches!(tp, Tp::Datagram);
+            // connection transports: the peer never retransmits and no virtual time passes (keep-alive and
+            // idle handling of connections is not C09's subject); only the TU's own retransmission remains
+            let keep = |e: &Ev| datagram || matches!(e, Ev::TuRetransmit);
+            Case {
+                req,
+                src_same,
+                src_alt,
+                src_port,
+                tp,
+                responses,
+                rng,
+                excluded: vec![],
+                locals: if datagram { locals } else { vec![] },
+                arrive_on: if datagram { arrive_on } else { 0 },
+                early: early.into_iter().filter(|e| keep(e)).collect(),
+                history: history.into_iter().filter(|e| keep(e)).collect(),
+            }
         })
         .prop_map(exclude_open_findings)
         .boxed()
@@ -778,6 +976,10 @@ pub fn status_cases(_tier: Tier) -> Vec<Case> {
                     responses: vec![(code, reason)],
                     rng: 0,
                     excluded: vec![],
+                    locals: vec![],
+                    arrive_on: 0,
+                    early: vec![],
+                    history: vec![],
                 });
             }
         }
@@ -842,6 +1044,130 @@ pub fn grid_cases(_tier: Tier) -> Vec<Case> {
                                         responses: vec![(if received { 200 } else { 404 }, None)],
                                         rng: 0,
                                         excluded: vec![],
+                                        locals: vec![],
+                                        arrive_on: 0,
+                                        early: vec![],
+                                        history: vec![],
+                                    });
+                                }
+                            }
+                        }
+                    }
+                }
+            }
+        }
+    }
+    out
+}
+
+fn lt(dtls: bool, other_family: bool, ip_sel: u8, port: u16) -> LocalTp {
+    LocalTp { dtls, other_family, ip_sel, port }
+}
+
+/// top Via for the two enumerations below
+fn enum_top(sent_by: &H, port: Option<u16>, maddr: &Option<H>, rport: bool) -> ViaSpec {
+    let mut params = vec![VP::Branch("z9hG4bKc09enum".into())];
+    if let Some(m) = maddr {
+        params.push(VP::Maddr { host: m.clone(), bare_v6: false });
+    }
+    if rport {
+        params.push(VP::Rport(None));
+    }
+    simple_via(sent_by.clone(), port, params)
+}
+
+/// endpoints that own several datagram transports: socket layout x socket the request arrives on x
+/// maddr kind x rport x source family x INVITE / non-INVITE x (no | one) retransmission of the request
+pub fn socket_cases(_tier: Tier) -> Vec<Case> {
+    let layouts: Vec<Vec<LocalTp>> = vec![
+        // same name, same family, same ip: only the port tells them apart
+        vec![lt(false, false, 0, 5060), lt(false, false, 0, 5080)],
+        vec![lt(false, false, 0, 5080), lt(false, false, 0, 5060), lt(false, false, 0, 6060)],
+        // same port on several addresses
+        vec![lt(false, false, 0, 5060), lt(false, false, 1, 5060), lt(false, false, 2, 5060)],
+        // both families
+        vec![lt(false, true, 0, 5060), lt(false, false, 0, 5060), lt(false, false, 0, 5080)],
+        vec![lt(false, false, 0, 5060), lt(false, true, 0, 5060)],
+        // two kinds of datagram transport
+        vec![lt(true, false, 0, 5061), lt(false, false, 0, 5060), lt(true, false, 0, 5081), lt(false, false, 0, 5080)],
+    ];
+    let maddrs: [Option<H>; 3] = [None, Some(H::V4([224, 0, 1, 75])), Some(H::V6(POOL6[5]))];
+    let mut out = vec![];
+    for layout in &layouts {
+        for arrive_on in 0..layout.len() as u8 {
+            for maddr in &maddrs {
+                for rport in [false, true] {
+                    for src6 in [false, true] {
+                        for invite in [false, true] {
+                            for retx in [false, true] {
+                                let vias = vec![
+                                    enum_top(&H::V4([192, 0, 2, 9]), Some(5070), maddr, rport),
+                                    simple_via(H::V4([10, 1, 1, 1]), None, vec![VP::Branch("z9hG4bKlow1".into())]),
+                                ];
+                                out.push(Case {
+                                    req: simple_req(invite, vias),
+                                    src_same: false,
+                                    src_alt: if src6 { H::V6(POOL6[4]) } else { H::V4([198, 51, 100, 23]) },
+                                    src_port: 33444,
+                                    tp: Tp::Datagram,
+                                    responses: vec![(if invite { 180 } else { 100 }, None), (if rport { 200 } else { 486 }, None)],
+                                    rng: 0,
+                                    excluded: vec![],
+                                    locals: layout.clone(),
+                                    arrive_on,
+                                    early: vec![],
+                                    history: if retx { vec![Ev::Retx(RSrc::Same), Ev::TuRetransmit] } else { vec![] },
+                                });
+                            }
+                        }
+                    }
+                }
+            }
+        }
+    }
+    out
+}
+
+/// the life of a server transaction after its final response: INVITE / non-INVITE x final 2xx / 486 x
+/// maddr kind x rport x sent-by port x source relation x one or two sockets x shape of the history
+pub fn retransmission_cases(_tier: Tier) -> Vec<Case> {
+    let other_ip = RSrc::OtherIp { v4: [203, 0, 113, 5], v6: POOL6[0], port: 6001 };
+    let shapes: Vec<(Vec<Ev>, Vec<Ev>)> = vec![
+        (vec![], vec![Ev::Retx(RSrc::Same)]),
+        (vec![], vec![Ev::Retx(RSrc::Same), Ev::Advance(200), Ev::Retx(RSrc::Same)]),
+        (vec![], vec![Ev::Retx(RSrc::OtherPort(40999))]),
+        (vec![], vec![Ev::Retx(other_ip.clone())]),
+        // timer G of the INVITE server transaction: 500 and 1500 ms after the final response
+        (vec![], vec![Ev::Advance(600), Ev::Advance(1100)]),
+        (vec![], vec![Ev::Advance(600), Ev::Retx(RSrc::Same), Ev::Advance(1100), Ev::Retx(RSrc::OtherPort(40999)), Ev::Advance(2100)]),
+        (vec![Ev::Retx(RSrc::Same)], vec![Ev::Retx(RSrc::Same)]),
+        (vec![Ev::Retx(RSrc::OtherPort(40999)), Ev::Retx(RSrc::Same)], vec![]),
+        (vec![], vec![Ev::TuRetransmit, Ev::Retx(RSrc::Same), Ev::Advance(500), Ev::TuRetransmit]),
+    ];
+    let maddrs: [Option<H>; 4] = [None, Some(H::V4([192, 0, 2, 99])), Some(H::V6(POOL6[5])), Some(H::Name("mcast.example.com".into()))];
+    let mut out = vec![];
+    for invite in [false, true] {
+        for code in [200u16, 486] {
+            for maddr in &maddrs {
+                for rport in [false, true] {
+                    for port in [None, Some(5070u16)] {
+                        for src in 0..3u8 {
+                            for two_sockets in [false, true] {
+                                for (early, history) in &shapes {
+                                    let vias = vec![enum_top(&H::V4([192, 0, 2, 9]), port, maddr, rport)];
+                                    out.push(Case {
+                                        req: simple_req(invite, vias),
+                                        src_same: src == 0,
+                                        src_alt: if src == 2 { H::V6(POOL6[4]) } else { H::V4([198, 51, 100, 7]) },
+                                        src_port: 5062,
+                                        tp: Tp::Datagram,
+                                        responses: vec![(code, None)],
+                                        rng: 0,
+                                        excluded: vec![],
+                                        locals: if two_sockets { vec![lt(false, false, 0, 5060), lt(false, false, 0, 5080)] } else { vec![] },
+                                        arrive_on: 1,
+                                        early: early.clone(),
+                                        history: history.clone(),
                                     });
                                 }
                             }
@@ -878,6 +1204,26 @@ pub struct Observed {
     pub conn_received: usize,
     pub connects: usize,
     pub setup_error: Option<String>,
+    /// bound address of the transport the request arrived on (datagram)
+    pub arrival_bound: Option<SocketAddr>,
+    /// number of datagram transports the endpoint owns
+    pub n_locals: usize,
+    /// what went out while the `history` events ran: (index of the event, message)
+    pub late: Vec<(usize, Sent)>,
+    /// messages that went out between the delivery of the request and the first response of the TU
+    pub before_first: Vec<Sent>,
+    /// errors of `Accepted::retransmit`
+    pub tu_retransmit_errors: Vec<String>,
+    pub tu_retransmits: usize,
+}
+
+/// what the TU still holds after its last response (kept alive until the end of the case)
+#[allow(dead_code)]
+enum Kept {
+    Inv(sip_core::transaction::ServerInvTsx),
+    Non(sip_core::transaction::ServerTsx),
+    Accepted(sip_core::transaction::Accepted),
+    Nothing,
 }
 
 async fn answer(
@@ -886,13 +1232,14 @@ async fn answer(
     case: &Case,
     log: &WireLog,
     obs: &mut Observed,
-) {
+) -> Kept {
     let invite = req.line.method == Method::INVITE;
     enum Tsx {
         Inv(sip_core::transaction::ServerInvTsx),
         Non(sip_core::transaction::ServerTsx),
         Done,
     }
+    let mut accepted_state = None;
     let mut tsx = if invite {
         Tsx::Inv(endpoint.create_server_inv_tsx(&mut req))
     } else {
@@ -919,13 +1266,8 @@ async fn answer(
             }
             Tsx::Inv(t) if (200..300).contains(code) => {
                 match t.respond_success(response).await {
-                    Ok(accepted) => {
-                        // the TU keeps the Accepted state for the rest of the case
-                        tokio::spawn(async move {
-                            let _keep = accepted;
-                            std::future::pending::<()>().await;
-                        });
-                    }
+                    // the TU keeps the Accepted state for the rest of the case
+                    Ok(accepted) => accepted_state = Some(accepted),
                     Err(e) => call_err = Some(e.to_string()),
                 }
                 Tsx::Done
@@ -955,6 +1297,63 @@ async fn answer(
         });
     }
     drop(req);
+    // a transaction that only saw provisional responses stays alive as well
+    match (tsx, accepted_state) {
+        (_, Some(a)) => Kept::Accepted(a),
+        (Tsx::Inv(t), _) => Kept::Inv(t),
+        (Tsx::Non(t), _) => Kept::Non(t),
+        (Tsx::Done, _) => Kept::Nothing,
+    }
+}
+
+/// the retransmissions that precede the TU's first response
+async fn run_early(endpoint: &sip_core::Endpoint, tp: &TpHandle, case: &Case, bytes: &[u8], log: &WireLog, obs: &mut Observed) {
+    let before = log.len();
+    for e in &case.early {
+        if let Ev::Retx(s) = e {
+            inject(endpoint, tp, case.retx_source(s), bytes);
+            settle().await;
+        }
+    }
+    obs.before_first = log.snapshot().into_iter().skip(before).collect();
+}
+
+/// `tp` = the datagram transport the request arrived on (None: connection transports, no `Retx` / `Advance`)
+async fn run_history(
+    endpoint: &sip_core::Endpoint,
+    tp: Option<&TpHandle>,
+    case: &Case,
+    bytes: &[u8],
+    clock: Clock,
+    log: &WireLog,
+    kept: &mut Kept,
+    obs: &mut Observed,
+) {
+    for (i, e) in case.history.iter().enumerate() {
+        let before = log.len();
+        match e {
+            Ev::Retx(s) => {
+                if let Some(tp) = tp {
+                    inject(endpoint, tp, case.retx_source(s), bytes);
+                }
+            }
+            Ev::Advance(ms) => {
+                if tp.is_some() {
+                    clock.advance(*ms as u64).await;
+                }
+            }
+            Ev::TuRetransmit => {
+                if let Kept::Accepted(a) = kept {
+                    obs.tu_retransmits += 1;
+                    if let Err(e) = a.retransmit().await {
+                        obs.tu_retransmit_errors.push(e.to_string());
+                    }
+                }
+            }
+        }
+        settle().await;
+        obs.late.extend(log.snapshot().into_iter().skip(before).map(|s| (i, s)));
+    }
 }
 
 pub fn run(case: &Case) -> Observed {
@@ -973,15 +1372,25 @@ pub fn run(case: &Case) -> Observed {
 
         match case.tp {
             Tp::Datagram => {
-                let (tp, id) = mock_datagram(&log, "UDP", false, false, local);
-                b.add_unmanaged_transport(tp.clone());
+                let (locals, arrive) = case.resolved_locals();
+                let mut handles = vec![];
+                for l in &locals {
+                    let (tp, id) = mock_datagram(&log, l.name, l.secure, false, &l.bound.to_string());
+                    b.add_unmanaged_transport(tp.clone());
+                    handles.push((tp, id));
+                }
+                let (tp, id) = handles[arrive].clone();
                 let endpoint = b.build();
                 obs.tp_id = id;
+                obs.arrival_bound = Some(locals[arrive].bound);
+                obs.n_locals = locals.len();
                 obs.inject = format!("{:?}", inject(&endpoint, &tp, source, &bytes));
                 settle().await;
                 if let Ok(req) = rx.try_recv() {
                     obs.delivered = true;
-                    answer(&endpoint, req, &case, &log, &mut obs).await;
+                    run_early(&endpoint, &tp, &case, &bytes, &log, &mut obs).await;
+                    let mut kept = answer(&endpoint, req, &case, &log, &mut obs).await;
+                    run_history(&endpoint, Some(&tp), &case, &bytes, clock, &log, &mut kept, &mut obs).await;
                 }
                 settle().await;
             }
@@ -1014,7 +1423,8 @@ pub fn run(case: &Case) -> Observed {
                 settle().await;
                 if let Ok(req) = rx.try_recv() {
                     obs.delivered = true;
-                    answer(&endpoint, req, &case, &log, &mut obs).await;
+                    let mut kept = answer(&endpoint, req, &case, &log, &mut obs).await;
+                    run_history(&endpoint, None, &case, &bytes, clock, &log, &mut kept, &mut obs).await;
                 }
                 settle().await;
                 obs.conn_received = conn.received_len();
@@ -1069,7 +1479,8 @@ pub fn run(case: &Case) -> Observed {
                 settle().await;
                 if let Ok(req) = rx.try_recv() {
                     obs.delivered = true;
-                    answer(&endpoint, req, &case, &log, &mut obs).await;
+                    let mut kept = answer(&endpoint, req, &case, &log, &mut obs).await;
+                    run_history(&endpoint, None, &case, &bytes, clock, &log, &mut kept, &mut obs).await;
                 }
                 settle().await;
                 obs.conn_received = conn.received_len();
@@ -1185,21 +1596,22 @@ fn check_addr(which: &str, spec: &AddrSpec, values: &[&str], out: &mut CaseOut) 
     cmp_params(which, &format!("c09.{which}/params"), &g, &o, out);
 }
 
-/// the whole oracle for one response message
-fn check_response(case: &Case, r: &RespObs, sent: &Sent, m: &WireMsg, out: &mut CaseOut) {
+/// a failure that involves a known parameter written in another letter case gets its own signature
+/// (only when the parameter concerned is present in the request, i.e. is one of those written that way)
+fn nc(top: &ViaSpec, sig: &str, param_present: bool) -> String {
+    if top.name_case != 0 && param_present {
+        "c09.via/known-param-name-case".to_string()
+    } else {
+        sig.to_string()
+    }
+}
+
+/// the content of one response message: status line, Via stack, From, To, Call-ID, CSeq, Timestamp
+fn check_mirror(case: &Case, r: &RespObs, m: &WireMsg, out: &mut CaseOut) {
     let req = &case.req;
     let source = case.source();
     let top = &req.vias[0];
-    let case_variant = top.name_case != 0;
-    // a failure that involves a known parameter written in another letter case gets its own signature
-    // (only when the parameter concerned is present in the request, i.e. is one of those written that way)
-    let nc = |sig: &str, param_present: bool| -> String {
-        if case_variant && param_present {
-            "c09.via/known-param-name-case".to_string()
-        } else {
-            sig.to_string()
-        }
-    };
+    let nc = |sig: &str, param_present: bool| -> String { nc(top, sig, param_present) };
 
     // --- status line
     if !m.start.starts_with("SIP/2.0 ") {
@@ -1316,47 +1728,151 @@ fn check_response(case: &Case, r: &RespObs, sent: &Sent, m: &WireMsg, out: &mut 
         }
     }
 
-    // --- destination
-    match case.tp {
-        Tp::Datagram => {
-            let maddr = match top.maddr() {
-                None => Maddr::Absent,
-                Some((h, bare)) => match (h.ip(), bare) {
-                    (Some(ip), false) => Maddr::Literal(ip),
-                    // IPv6 without brackets is not the `host` production: not asserted
-                    (Some(_), true) => Maddr::HostName,
-                    (None, _) => Maddr::HostName,
-                },
-            };
-            let want = rs::response_destination(
-                maddr,
-                top.port,
-                top.rport().is_some(),
-                source,
-                top.transport.eq_ignore_ascii_case("TLS"),
-            );
-            match want {
-                Destination::NotAsserted => out.class("dest-not-asserted(maddr is not an ip literal)"),
-                Destination::OneOf(addrs) => {
-                    if !addrs.contains(&sent.dest) {
-                        let sig = match maddr {
-                            Maddr::Literal(IpAddr::V6(_)) => "c09.dest/maddr-ipv6-reference",
-                            Maddr::Literal(_) => "c09.dest/maddr",
-                            _ if top.rport().is_some() => "c09.dest/rport",
-                            _ => "c09.dest/packet-source",
-                        };
-                        out.fail(
-                            nc(sig, top.maddr().is_some() || top.rport().is_some()),
-                            format!("top Via {:?}, packet source {source}: response must go to {addrs:?}, went to {}", top.text(), sent.dest),
-                        );
+}
+
+/// sec. 18.2.2 / RFC 3581 destination of one transmission of a response over a datagram transport.
+///
+/// `first` = None: the first transmission of a response, the packet source is the one of the request.
+/// `first` = Some(first transmission of that response; None when nothing went out): a further copy (the
+/// transaction answered a retransmitted request, a timer fired, the TU retransmitted its 2xx). A maddr wins
+/// whatever the packet sources were; without maddr the copy may follow the source of any (re)transmission
+/// of the request that was injected. A copy that repeats the destination of the first transmission is not
+/// reported again.
+fn check_dest(case: &Case, sent: &Sent, first: Option<Option<&Sent>>, out: &mut CaseOut) {
+    let top = &case.req.vias[0];
+    let source = case.source();
+    if !matches!(case.tp, Tp::Datagram) {
+        // connection transports: checked per case (same connection, no new connection)
+        return;
+    }
+    let maddr = match top.maddr() {
+        None => Maddr::Absent,
+        Some((h, bare)) => match (h.ip(), bare) {
+            (Some(ip), false) => Maddr::Literal(ip),
+            // IPv6 without brackets is not the `host` production: not asserted
+            (Some(_), true) => Maddr::HostName,
+            (None, _) => Maddr::HostName,
+        },
+    };
+    let sources = if first.is_some() { case.all_sources() } else { vec![source] };
+    let mut addrs: Vec<SocketAddr> = vec![];
+    for src in &sources {
+        match rs::response_destination(maddr, top.port, top.rport().is_some(), *src, top.transport.eq_ignore_ascii_case("TLS")) {
+            Destination::NotAsserted => {
+                out.class("dest-not-asserted(maddr is not an ip literal)");
+                return;
+            }
+            Destination::OneOf(a) => {
+                for x in a {
+                    if !addrs.contains(&x) {
+                        addrs.push(x);
                     }
                 }
             }
         }
-        Tp::Inbound { .. } | Tp::Outbound { .. } => {
-            // checked per case (same connection, no new connection)
+    }
+    if addrs.contains(&sent.dest) {
+        return;
+    }
+    let present = top.maddr().is_some() || top.rport().is_some();
+    match first {
+        None => {
+            let sig = match maddr {
+                Maddr::Literal(IpAddr::V6(_)) => "c09.dest/maddr-ipv6-reference",
+                Maddr::Literal(_) => "c09.dest/maddr",
+                _ if top.rport().is_some() => "c09.dest/rport",
+                _ => "c09.dest/packet-source",
+            };
+            out.fail(
+                nc(top, sig, present),
+                format!("top Via {:?}, packet source {source}: response must go to {addrs:?}, went to {}", top.text(), sent.dest),
+            );
+        }
+        Some(f) => {
+            if f.map_or(false, |f| f.dest == sent.dest) {
+                return;
+            }
+            let sig = match maddr {
+                Maddr::Literal(_) => "c09.retransmit/copy-not-sent-to-maddr",
+                _ if top.rport().is_some() => "c09.retransmit/copy-not-sent-to-source-ip-and-rport",
+                _ => "c09.retransmit/copy-not-sent-to-packet-source",
+            };
+            out.fail(
+                nc(top, sig, present),
+                format!(
+                    "top Via {:?}, packet sources of the request and its retransmissions {sources:?}: the first transmission of the response went to {:?}, a later copy of it must go to {addrs:?}, went to {} at {} ms",
+                    top.text(),
+                    f.map(|f| f.dest),
+                    sent.dest,
+                    sent.t_ms
+                ),
+            );
         }
     }
+}
+
+/// through which transport a transmission left. `first` as for `check_dest`.
+fn check_transport(case: &Case, obs: &Observed, code: u16, sent: &Sent, first: Option<Option<&Sent>>, out: &mut CaseOut) {
+    if sent.tp == obs.tp_id {
+        return;
+    }
+    if let Some(f) = first {
+        if f.map_or(false, |f| f.tp == sent.tp) {
+            // already reported for the first transmission
+            return;
+        }
+    }
+    match case.tp {
+        Tp::Datagram => {
+            let same_family = obs.arrival_bound.map_or(true, |b| b.is_ipv4() == sent.dest.is_ipv4());
+            if obs.n_locals > 1 && !same_family {
+                // the receiving socket cannot reach that family and the endpoint owns other sockets: the statement is silent
+                out.class("transport-not-asserted(destination of the other address family, several sockets)");
+                return;
+            }
+            let sig = if first.is_some() { "c09.retransmit/other-transport" } else { "c09.dest/other-transport" };
+            out.fail(
+                sig,
+                format!(
+                    "request arrived on datagram transport {} bound to {:?} ({} registered), response {code} to {} left through transport {}",
+                    obs.tp_id, obs.arrival_bound, obs.n_locals, sent.dest, sent.tp
+                ),
+            );
+        }
+        _ => {
+            let sig = if first.is_some() {
+                "c09.retransmit/connection-not-the-one-the-request-arrived-on"
+            } else {
+                "c09.dest/connection-not-the-one-the-request-arrived-on"
+            };
+            out.fail(
+                sig,
+                format!("request arrived on connection {}, response {code} left on transport {} towards {}", obs.tp_id, sent.tp, sent.dest),
+            );
+        }
+    }
+}
+
+/// a further copy of response `r` (its first transmission: `first`)
+fn check_copy(case: &Case, obs: &Observed, r: &RespObs, first: Option<&Sent>, sent: &Sent, out: &mut CaseOut) {
+    check_transport(case, obs, r.code, sent, Some(first), out);
+    if first.map_or(true, |f| f.bytes != sent.bytes) {
+        // not the bytes that were checked already: the copy has to be a correct response of its own
+        match WireMsg::parse(&sent.bytes) {
+            None => {} // reported as c09.wire/unreadable-message
+            Some(m) => {
+                let mut scratch = CaseOut::default();
+                check_mirror(case, r, &m, &mut scratch);
+                for f in scratch.failures {
+                    out.fail(
+                        format!("c09.retransmit/copy-differs:{}", f.sig.trim_start_matches("c09.")),
+                        format!("a later copy of response {} (at {} ms) is not the response that was sent first: {}", r.code, sent.t_ms, f.msg),
+                    );
+                }
+            }
+        }
+    }
+    check_dest(case, sent, Some(first), out);
 }
 
 pub fn check(case: &Case, out: &mut CaseOut) {
@@ -1487,6 +2003,53 @@ pub fn check(case: &Case, out: &mut CaseOut) {
         });
     }
 
+    if matches!(case.tp, Tp::Datagram) {
+        let (locals, arrive) = case.resolved_locals();
+        out.class(match (case.locals.is_empty(), locals.len()) {
+            (true, _) => "sockets:single UDP (as before)",
+            (false, 1) => "sockets:1",
+            (false, 2) => "sockets:2",
+            _ => "sockets:3-4",
+        });
+        let me = &locals[arrive];
+        let twin = |l: &LocalAddr| l.name == me.name && l.bound.is_ipv4() == me.bound.is_ipv4();
+        if locals.len() > 1 {
+            out.class(if locals[..arrive].iter().any(|l| twin(l)) {
+                "sockets:request arrives on a later socket of its name and family"
+            } else if locals[arrive + 1..].iter().any(|l| twin(l)) {
+                "sockets:request arrives on the first socket of its name and family"
+            } else {
+                "sockets:request arrives on the only socket of its name and family"
+            });
+        }
+        if locals.iter().any(|l| l.name != me.name) {
+            out.class("sockets:another datagram transport kind registered");
+        }
+        if locals.iter().any(|l| l.bound.is_ipv4() != me.bound.is_ipv4()) {
+            out.class("sockets:other address family registered");
+        }
+        if locals.iter().enumerate().any(|(i, l)| i != arrive && l.bound.ip() != me.bound.ip() && twin(l)) {
+            out.class("sockets:same kind on another local ip");
+        }
+    }
+    for e in &case.early {
+        if let Ev::Retx(_) = e {
+            out.class("history:request retransmitted before the first response");
+        }
+    }
+    for e in &case.history {
+        out.class(match e {
+            Ev::Retx(RSrc::Same) => "history:request retransmitted after the last response (same source)",
+            Ev::Retx(RSrc::OtherPort(_)) => "history:request retransmitted after the last response (other source port)",
+            Ev::Retx(RSrc::OtherIp { .. }) => "history:request retransmitted after the last response (other source ip)",
+            Ev::Advance(_) => "history:time passes",
+            Ev::TuRetransmit => "history:TU asked to retransmit",
+        });
+    }
+    if obs.tu_retransmits > 0 {
+        out.class("history:Accepted::retransmit called");
+    }
+
     // --- delivery
     if let Some(e) = &obs.setup_error {
         out.fail("c09.harness/setup", e.clone());
@@ -1531,30 +2094,58 @@ pub fn check(case: &Case, out: &mut CaseOut) {
         if let Some(e) = &r.call_err {
             out.fail("c09.send/error", format!("sending {} failed: {e}", r.code));
         }
-        if r.msgs.len() != 1 {
-            out.fail("c09.send/count", format!("response {} produced {} messages on the wire", r.code, r.msgs.len()));
+        // a retransmission of the request that arrived before the TU answered may be answered as soon as
+        // there is a response: one transmission, plus at most one copy per such retransmission
+        let allowed = 1 + case.early.iter().filter(|e| matches!(e, Ev::Retx(_))).count();
+        if r.msgs.is_empty() || r.msgs.len() > allowed {
+            out.fail(
+                "c09.send/count",
+                format!("response {} produced {} messages on the wire right away (1..={allowed} expected)", r.code, r.msgs.len()),
+            );
         }
-        for sent in &r.msgs {
-            match case.tp {
-                Tp::Datagram => {
-                    if sent.tp != obs.tp_id {
-                        out.fail("c09.dest/other-transport", format!("response left on transport {} instead of {}", sent.tp, obs.tp_id));
-                    }
-                }
-                _ => {
-                    if sent.tp != obs.tp_id {
-                        out.fail(
-                            "c09.dest/connection-not-the-one-the-request-arrived-on",
-                            format!("request arrived on connection {}, response {} left on transport {} towards {}", obs.tp_id, r.code, sent.tp, sent.dest),
-                        );
-                    }
-                }
+        for (k, sent) in r.msgs.iter().enumerate() {
+            if k > 0 {
+                out.class("copy:sent-with-the-response(request was retransmitted before the first response)");
+                check_copy(case, &obs, r, r.msgs.first(), sent, out);
+                continue;
             }
+            check_transport(case, &obs, r.code, sent, None, out);
             if let Some(m) = WireMsg::parse(&sent.bytes) {
                 notes.push(format!("->{} {} | {}", sent.dest, m.start, m.list_values("via").first().cloned().unwrap_or_default()));
-                check_response(case, r, sent, &m, out);
+                check_mirror(case, r, &m, out);
+                check_dest(case, sent, None, out);
             }
         }
+    }
+    // --- what left after the last response: copies of that response
+    if let Some(last) = obs.resp.last() {
+        let maddr_route = matches!(top.maddr(), Some((h, false)) if h.ip().is_some()) && matches!(case.tp, Tp::Datagram);
+        for (i, sent) in &obs.late {
+            out.class(match &case.history[*i] {
+                Ev::Retx(RSrc::Same) => "copy:answers-retransmitted-request(same source)",
+                Ev::Retx(RSrc::OtherPort(_)) => "copy:answers-retransmitted-request(other source port)",
+                Ev::Retx(RSrc::OtherIp { .. }) => "copy:answers-retransmitted-request(other source ip)",
+                Ev::Advance(_) => "copy:timer-driven",
+                Ev::TuRetransmit => "copy:2xx-retransmitted-by-the-TU",
+            });
+            if maddr_route {
+                out.class("copy:of-a-response-routed-by-maddr");
+            } else if top.rport().is_some() {
+                out.class("copy:of-a-response-routed-by-rport");
+            }
+            if obs.n_locals > 1 {
+                out.class("copy:endpoint-with-several-sockets");
+            }
+            notes.push(format!("copy@{}ms ->{}", sent.t_ms, sent.dest));
+            check_copy(case, &obs, last, last.msgs.first(), sent, out);
+        }
+    }
+    for e in &obs.tu_retransmit_errors {
+        out.fail("c09.retransmit/tu-retransmit-error", format!("Accepted::retransmit failed: {e}"));
+    }
+    if !obs.before_first.is_empty() {
+        // nothing is asserted about messages that precede the TU's first response (Content-Length above)
+        out.class("message-sent-before-the-first-response-of-the-TU(not asserted)");
     }
     let want_connects = match case.tp {
         Tp::Outbound { .. } => 1,
@@ -1570,7 +2161,8 @@ pub fn check(case: &Case, out: &mut CaseOut) {
 
     // --- non-triviality
     let special = top.maddr().is_some() || top.rport().is_some() || top.has_received();
-    if req.vias.len() >= 2 || special || differs || !matches!(case.tp, Tp::Datagram) {
+    let eventful = !obs.late.is_empty() || obs.resp.iter().any(|r| r.msgs.len() > 1);
+    if req.vias.len() >= 2 || special || differs || !matches!(case.tp, Tp::Datagram) || obs.n_locals > 1 || eventful {
         out.nontrivial(case);
     }
 }
@@ -1579,18 +2171,23 @@ pub fn property() -> Property {
     Property {
         fuzz: vec![],
         id: "C09",
-        rule: "case = request (INVITE or one of 9 other methods, never ACK; 1..5 Via values with transport token, sent-by IPv4/IPv6-reference/host name with or without port, parameters maddr (IPv4, IPv6 reference, host name) / rport (empty, with value) / received / ttl / branch / extension parameters (no value, token, quoted-string) in shuffled order, optional white space, one-per-line or comma-list layout, compact names; From/To with token or quoted display names, addr-spec or name-addr form, tag and extra parameters; Call-ID, CSeq, optional Timestamp, optional body) x packet source (IPv4/IPv6, equal to or different from the sent-by host, any port) x transport (datagram mock, inbound/outbound TCP and TLS mock connections) x 1..3 responses (provisionals then any code of 100..=699, with or without caller-supplied reason) produced by Endpoint::create_response and sent through the server transaction. Non-trivial = at least 2 Via values, or maddr/rport/received in the top Via, or sent-by host != packet source, or a connection transport; distinct by hash of the case.",
+        rule: "case = request (INVITE or one of 9 other methods, never ACK; 1..5 Via values with transport token, sent-by IPv4/IPv6-reference/host name with or without port, parameters maddr (IPv4, IPv6 reference, host name) / rport (empty, with value) / received / ttl / branch / extension parameters (no value, token, quoted-string) in shuffled order, optional white space, one-per-line or comma-list layout, compact names; From/To with token or quoted display names, addr-spec or name-addr form, tag and extra parameters; Call-ID, CSeq, optional Timestamp, optional body) x packet source (IPv4/IPv6, equal to or different from the sent-by host, any port) x transport (datagram mock, inbound/outbound TCP and TLS mock connections) x 1..3 responses (provisionals then any code of 100..=699, with or without caller-supplied reason) produced by Endpoint::create_response and sent through the server transaction x datagram sockets of the endpoint (the single UDP socket, or 1..4 transports named UDP/DTLS on IPv4/IPv6 addresses with distinct ports in any registration order, the request arriving on any of them) x history (0..2 retransmissions of the request before the TU's first response; after the last response 0..4 events of: request retransmitted from the same source / another port / another ip, 1..2600 ms of virtual time, TU retransmits its 2xx; connection transports: TU retransmission only). Non-trivial = at least 2 Via values, or maddr/rport/received in the top Via, or sent-by host != packet source, or a connection transport, or an endpoint with several datagram sockets, or at least one further copy of a response observed on the wire; distinct by hash of the case.",
         assumptions: vec![
             "display names are qdtext / tokens, From/To URIs carry none of the components RFC 3261 Table 1 excludes there (port, maddr/ttl/transport/lr/method, headers)",
             "host names are never dotted quads; IPv4-mapped IPv6 addresses are not generated",
             "not asserted: destination for a maddr that is not an IP literal (host name, IPv6 without brackets), value of an rport that arrived non-empty, Timestamp in responses other than 100, reason text for codes outside RFC 3261 when none is supplied, choice between 5060 and 5061 for a maddr without sent-by port under a Via transport token TLS",
             "excluded from generation by construction and counted in the class histogram (open findings, replay files exist): quoted-string parameter values whose content is not a token; '%' inside token parameter values (branch, tag, extension parameters)",
+            "datagram sockets: the bound addresses of one endpoint are pairwise distinct; the request and all its retransmissions arrive on the same socket, whose address family is that of the packet source; the response must leave through that socket, except that nothing is asserted when its destination is of the other address family and the endpoint owns further sockets",
+            "history: retransmissions are byte-identical to the request; the virtual time of one case stays below 11 s (a server transaction lives 32 s); every message that leaves after the first transmission of a response is held to be a copy of that response: one whose bytes equal the first transmission is only checked for transport and destination, any other also for its content (signatures c09.retransmit/copy-differs:*); destination of a copy = the sec. 18.2.2 table evaluated for the packet source of ANY injected (re)transmission of the request (a maddr literal therefore admits one address only); a copy that repeats a wrong destination/transport of the first transmission is reported once (c09.dest/*), not twice",
+            "not asserted: whether, when and how often copies of a response are sent (C06), messages sent before the TU's first response, the number of copies sent together with a response beyond 'at most one per retransmission that arrived before it'",
             "connection transports: 'same connection' is observed as the peer end of the mock connection the request was written to receiving the response, and the mock factories counting no further connect call",
         ],
-        explanation: "status-codes: all 600 codes x {default, supplied reason} x {INVITE, non-INVITE} enumerated on a fixed two-Via request; routing-grid: the full product transport kind(5) x sent-by kind(3) x port(2) x source relation(3) x maddr kind(4) x rport kind(3) x received(2) x Via count(3) enumerated; random: sampled requests with arbitrary parameters, layouts, sources, codes and reasons",
+        explanation: "status-codes: all 600 codes x {default, supplied reason} x {INVITE, non-INVITE} enumerated on a fixed two-Via request; routing-grid: the full product transport kind(5) x sent-by kind(3) x port(2) x source relation(3) x maddr kind(4) x rport kind(3) x received(2) x Via count(3) enumerated; sockets: 6 socket layouts (ports only / several local ips / both families / two transport kinds) x arrival socket x maddr kind(3) x rport(2) x source family(2) x INVITE/non-INVITE x (no | one) retransmission enumerated; retransmissions: INVITE/non-INVITE x final 200/486 x maddr kind(4) x rport(2) x sent-by port(2) x source relation(3) x one/two sockets x 9 history shapes (request retransmitted once/twice, from another port, from another ip, timer G only, mixed, before the first response, TU retransmission) enumerated; random: sampled requests with arbitrary parameters, layouts, sources, codes, reasons, socket sets and histories",
         subs: vec![
             enum_sub("status-codes", status_cases, check),
             enum_sub("routing-grid", grid_cases, check),
+            enum_sub("sockets", socket_cases, check),
+            enum_sub("retransmissions", retransmission_cases, check),
             prop_sub("random", strategy, 1500, 50000, check),
         ],
     }
@@ -1614,6 +2211,10 @@ mod dev {
             responses: vec![(200, None)],
             rng: 0,
             excluded: vec![],
+            locals: vec![],
+            arrive_on: 0,
+            early: vec![],
+            history: vec![],
         };
         let percent = mk(vec![simple_via(H::V4([192, 0, 2, 9]), Some(5062), vec![VP::Branch("z9hG4bKab%41cd".into())])]);
         let quoted = mk(vec![
